@@ -48,6 +48,7 @@ type Run struct {
 	Class      string         // coarse scenario class (distinctness / stats)
 	Desc       map[string]any // decoded scenario, for samples and replay files
 
+	y      *yieldState
 	simEnd time.Duration
 	steps  int
 	late   []Violation
@@ -142,9 +143,11 @@ func Execute(t *testing.T, p *Prop, tape *simrt.Tape, tier string, keepTrace boo
 						run.Viol = append(run.Viol, Violation{Oracle: "harness-panic", Sig: "harness", Msg: clip(fmt.Sprintf("%v\n%s", rec, debug.Stack()))})
 					}
 				}()
+				installHooks(run)
 				p.Run(run)
 			}()
 			run.cleanup()
+			removeHooks()
 		})
 	}()
 	<-done
